@@ -265,6 +265,18 @@ theorem c18_device_request (inp : Input) (nets : List Net) (pa : Option String) 
       exact ha n hn
   · exact ⟨"eni", by simp [ht], Or.inl rfl, by intro h; exact absurd h (by decide)⟩
 
+/-- … whatever the pod template already declared for the device resources: after admission the injected kind is
+    present exactly once, with the number of networks as its quantity -/
+theorem c18_device_request_overrides_declared (pre : Option Nat) (name : String) (k : Nat) :
+    (name, k) ∈ finalResources pre (some (name, k)) ∧ ∀ q, (name, q) ∈ finalResources pre (some (name, k)) → q = k := by
+  unfold finalResources
+  refine ⟨by simp, ?_⟩
+  intro q hq
+  simp only [List.mem_append, List.mem_filter, List.mem_singleton, Prod.mk.injEq] at hq
+  rcases hq with ⟨_, h⟩ | ⟨_, h⟩
+  · simp at h
+  · exact h
+
 /-- the zone term for network-request pods lists only zones in which every requested network has a vSwitch -/
 theorem c18_zone_subset (pns : List PN) (rs : List Req) : ∀ (idx : Nat) (nets : List Net) (zones : List String),
     requests pns rs idx = .ok (nets, zones) →
